@@ -1,20 +1,36 @@
 """C12 - queries only read: bucket data is unchanged and scoped to the query window."""
 S = "aw_datastore.storages.sqlite.SqliteStorage."
 PROP = dict(
+    trusted=["T-DECORATOR: q2_function / q2_typecheck hand the arguments to the decorated function unchanged (after type checks); contracts are on the functions as defined"],
     id="C12",
     level="other",
-    contract_modules=["contracts.models", "contracts.sqlite"],
-    spec_modules=["contracts.sqlite"],
+    contract_modules=["contracts.models", "contracts.sqlite", "contracts.datastore", "contracts.queryfn"],
+    spec_modules=["contracts.sqlite", "contracts.datastore", "contracts.queryfn"],
     functions=[dict(fn=S + "get_events", rt_skip=True),
                dict(fn=S + "get_eventcount", rt_skip=True),
                dict(fn=S + "get_event", rt_skip=True),
                dict(fn=S + "get_metadata", rt_skip=True),
                dict(fn=S + "buckets", rt_skip=True),
                dict(fn="aw_datastore.storages.sqlite._rows_to_events", rt_skip=True),
-               dict(fn=S + "commit", rt_skip=True)],
+               dict(fn=S + "commit", rt_skip=True),
+               dict(fn="aw_query.functions._verify_bucket_exists", rt_skip=True),
+               dict(fn="aw_query.functions.q2_query_bucket", rt_skip=True),
+               dict(fn="aw_query.functions.q2_query_bucket_eventcount", rt_skip=True),
+               dict(fn="aw_datastore.datastore.Datastore.buckets", rt_skip=True),
+               dict(fn="aw_datastore.datastore.Datastore.__getitem__", rt_skip=True),
+               dict(fn="aw_datastore.datastore.Bucket.get", rt_skip=True),
+               dict(fn="aw_datastore.datastore.Bucket.get_eventcount", rt_skip=True)],
     timeout_s=20,
     extra=[lambda run: run.storage_mode("c12", what="17 query programs (annotating, re-timing, failing midway) on populated stores: bucket dumps before/after, query_bucket vs direct windowed read")],
     technique="run-time check of the real code (bounded); with the read methods of the sqlite store proved pure against contracts over the table state",
-    explanation="deductive (sqlite): every read method a query can reach (get_events, get_eventcount, get_event, get_metadata, buckets) leaves every event row and every bucket row of every bucket exactly as it was and issues no statement (postconditions over the whole table state; the flush a read performs only moves the committed mark), writes nothing outside the connection and its own fresh objects (frame obligations), and hands out fresh Event objects with fresh data dicts, so that whatever a query does to the events it was given cannot reach the store. The query functions themselves (aw_query) and the other back ends are only bounded. " 
+    explanation="deductive (sqlite): every read method a query can reach (get_events, get_eventcount, get_event, get_metadata, buckets) leaves every event row and every bucket row of every bucket exactly as it was and issues no statement (postconditions over the whole table state; the flush a read performs only moves the committed mark), writes nothing outside the connection and its own fresh objects (frame obligations), and hands out fresh Event objects with fresh data dicts, so that whatever a query does to the events it was given cannot reach the store. The two functions through which a query reaches the store, query_bucket and query_bucket_eventcount (bodies as defined; the registering decorators are not modelled: T-DECORATOR), are proved against the contracts of Datastore.__getitem__ / Bucket.get / Bucket.get_eventcount: they leave every row of every bucket as it was - also when they raise - and query_bucket returns exactly the events of the named bucket that intersect the window parsed from STARTTIME / ENDTIME (widened to whole milliseconds), as fresh objects. The transforms a query applies afterwards work on those fresh objects. The other back ends and the interpreter are only bounded. " 
                 "bounded: on each back end, two populated buckets are dumped (events and metadata), 17 query programs are run with random windows at several UTC offsets - including programs that annotate, clear or re-time events in place and programs that raise midway (unknown function, unknown bucket, wrong arity, undefined variable) - and the dumps must be identical afterwards; query_bucket(b) must equal a direct windowed read of b over the query's start and end, query_bucket_eventcount the matching count.",
 )
+
+F = "/repo/aw_query/functions.py"
+MUTANTS = [
+    (F, "    return datastore[bucketname].get(starttime=starttime, endtime=endtime)", "    return datastore[bucketname].get(starttime=endtime, endtime=starttime)", True),      # window swapped
+    (F, "    return datastore[bucketname].get(starttime=starttime, endtime=endtime)", "    return datastore[bucketname].get(starttime=starttime)", True),                          # open-ended window
+    (F, "    return datastore[bucketname].get(starttime=starttime, endtime=endtime)", "    datastore[bucketname].delete(1)\n    return datastore[bucketname].get(starttime=starttime, endtime=endtime)", True),   # a query that writes
+    ("/repo/aw_datastore/storages/sqlite.py", "        self.commit()\n        c = self.conn.cursor()\n        starttime_i", "        self.conn.execute(\"DELETE FROM events WHERE endtime < 0\")\n        self.commit()\n        c = self.conn.cursor()\n        starttime_i", True),   # a read that cleans up
+]
